@@ -304,6 +304,11 @@ pub struct ResCfg {
     pub gated: bool,
     pub clk: usize,
     pub restart: bool,
+    /// debugger: 0 = none, 1 = DebugControl attached and idle, 2 = attached with a breakpoint armed
+    /// that is never hit, 3 = attached with a breakpoint that is hit in every cycle and continued
+    /// at once by a debugger-client thread.  The model ignores this dimension: the locked closure
+    /// is one critical section whatever the debugger does.
+    pub dbg: u8,
 }
 
 #[derive(Clone, Debug)]
@@ -395,6 +400,80 @@ END_PROGRAM
 }
 
 // ------------------------------------------------------------------------------------------------
+// Debugger dimension
+// ------------------------------------------------------------------------------------------------
+
+/// Stops every debugger-client thread of a case when dropped.
+pub struct DebugClients {
+    quit: Arc<std::sync::atomic::AtomicBool>,
+    pub hits: Arc<AtomicU64>,
+}
+
+impl DebugClients {
+    fn new() -> Self {
+        DebugClients {
+            quit: Arc::new(std::sync::atomic::AtomicBool::new(false)),
+            hits: Arc::new(AtomicU64::new(0)),
+        }
+    }
+}
+
+impl Drop for DebugClients {
+    fn drop(&mut self) {
+        self.quit.store(true, Ordering::SeqCst);
+    }
+}
+
+/// Attaches a `DebugControl` to `rt` according to `dbg` (see `ResCfg::dbg`).
+fn attach_debugger(rt: &mut trust_runtime::Runtime, dbg: u8, src: &str, clients: &DebugClients) -> Result<(), String> {
+    use trust_runtime::debug::{DebugBreakpoint, SourceLocation};
+    if dbg == 0 {
+        return Ok(());
+    }
+    let debug = rt.enable_debug();
+    // cycle events are not consumed by anybody: send them into a closed channel instead of a queue
+    let (etx, erx) = std::sync::mpsc::channel();
+    drop(erx);
+    debug.set_runtime_sender(etx);
+    match dbg {
+        2 => debug.set_breakpoints_for_file(4242, vec![DebugBreakpoint::new(SourceLocation::new(4242, 0, 10))]),
+        3 => {
+            // the second statement of the program body, executed in every cycle
+            let at = src.find("o_spa := pa;").ok_or("statement not found")? as u32;
+            let loc = rt
+                .statement_locations(0)
+                .and_then(|ls| ls.iter().find(|l| l.start == at).copied())
+                .ok_or("no statement location for the breakpoint")?;
+            let (stx, srx) = std::sync::mpsc::channel();
+            debug.set_stop_sender(stx);
+            debug.set_breakpoints_for_file(0, vec![DebugBreakpoint::new(loc)]);
+            let quit = clients.quit.clone();
+            let hits = clients.hits.clone();
+            let client = debug.clone();
+            std::thread::Builder::new()
+                .name("c20-debugger".into())
+                .spawn(move || loop {
+                    match srx.recv_timeout(StdDuration::from_millis(20)) {
+                        Ok(_stop) => {
+                            hits.fetch_add(1, Ordering::SeqCst);
+                            client.continue_run();
+                        }
+                        Err(std::sync::mpsc::RecvTimeoutError::Timeout) => {
+                            if quit.load(Ordering::SeqCst) {
+                                return;
+                            }
+                        }
+                        Err(std::sync::mpsc::RecvTimeoutError::Disconnected) => return,
+                    }
+                })
+                .map_err(|e| e.to_string())?;
+        }
+        _ => {}
+    }
+    Ok(())
+}
+
+// ------------------------------------------------------------------------------------------------
 // The world: real threads + controller-side bookkeeping
 // ------------------------------------------------------------------------------------------------
 
@@ -452,6 +531,7 @@ pub struct World {
     gate: Arc<StartGate>,
     gate_open: bool,
     bell: Arc<Bell>,
+    pub dbg_clients: DebugClients,
     miss: StdDuration,
     hang: StdDuration,
     pub saw_l: bool,
@@ -490,6 +570,7 @@ impl World {
             .collect();
         let gate = Arc::new(StartGate::new());
         let bell = Arc::new(Bell::default());
+        let dbg_clients = DebugClients::new();
         let mut runtimes = Vec::new();
         let mut ctls = Vec::new();
         for rc in &cfg.res {
@@ -499,10 +580,12 @@ impl World {
                 g.free_run = true;
                 g.jitter = 600;
             }
-            let mut rt = TestHarness::from_source(&source(rc.inc, cfg.c0, cfg.p0))
+            let src = source(rc.inc, cfg.c0, cfg.p0);
+            let mut rt = TestHarness::from_source(&src)
                 .map_err(|e| format!("compile: {e}"))?
                 .into_runtime();
             rt.io_mut().resize(1, 20, 0);
+            attach_debugger(&mut rt, rc.dbg, &src, &dbg_clients)?;
             if rc.restart {
                 rt.set_fault_policy(FaultPolicy::Restart);
             }
@@ -558,6 +641,7 @@ impl World {
             gate,
             gate_open: false,
             bell,
+            dbg_clients,
             miss: StdDuration::from_millis(miss_ms),
             hang: StdDuration::from_secs(hang_s),
             saw_l: false,
@@ -973,6 +1057,7 @@ pub fn gen_cfg(rng: &mut Rng) -> CaseCfg {
             gated: gated && !rng.chance(1, 6),
             clk: if shared_clock { 0 } else if rng.chance(1, 5) { 0 } else { i },
             restart: rng.chance(1, 4),
+            dbg: *rng.pick(&[0u8, 0, 1, 2, 2, 3, 3]),
         })
         .collect();
     CaseCfg {
@@ -1101,6 +1186,9 @@ fn gen_op(rng: &mut Rng, cfg: &CaseCfg, w: &World, pos: &[Pos], pending: &mut Ve
 }
 
 fn write_cfg(n: u64, cfg: &CaseCfg, out: &mut Out) {
+    for r in &cfg.res {
+        out.count(&format!("res_debugger_mode_{}", r.dbg));
+    }
     out.line(format!("case {n}"));
     out.line(format!(
         "sys {} {} {} {}",
@@ -1111,13 +1199,14 @@ fn write_cfg(n: u64, cfg: &CaseCfg, out: &mut Out) {
     ));
     for (i, r) in cfg.res.iter().enumerate() {
         out.line(format!(
-            "res {i} {} {} {} {} {} {}",
+            "res {i} {} {} {} {} {} {} {}",
             r.inc,
             r.interval,
             r.scale,
             u8::from(r.gated),
             r.clk,
-            u8::from(r.restart)
+            u8::from(r.restart),
+            r.dbg
         ));
     }
 }
@@ -1225,6 +1314,10 @@ pub fn run_scripted(n: u64, rng: &mut Rng, args: &Args, stamp: Arc<AtomicU64>, o
         out.count("cases_with_hang");
     }
     out.add("cycles", total_cycles);
+    out.add("debugger_breakpoint_hits", w.dbg_clients.hits.load(Ordering::SeqCst));
+    if cfg.res.iter().any(|r| r.dbg >= 2) {
+        out.line("tag debugger-armed");
+    }
     if active >= 2 && (w.saw_l || paused_go || fault_seen) {
         out.line("tag nontrivial");
     }
@@ -1255,13 +1348,16 @@ pub fn run_api(n: u64, rng: &mut Rng, _args: &Args, stamp: Arc<AtomicU64>, out: 
     // runtimes with probes, not spawned
     let mut runners = Vec::new();
     let mut ctls = Vec::new();
+    let dbg_clients = DebugClients::new();
     for rc in &cfg.res {
         let ctl = Arc::new(Ctl::default());
         ctl.m.lock().unwrap().free_run = true;
-        let mut rt = TestHarness::from_source(&source(rc.inc, cfg.c0, cfg.p0))
+        let src = source(rc.inc, cfg.c0, cfg.p0);
+        let mut rt = TestHarness::from_source(&src)
             .map_err(|e| format!("compile: {e}"))?
             .into_runtime();
         rt.io_mut().resize(1, 20, 0);
+        attach_debugger(&mut rt, rc.dbg, &src, &dbg_clients)?;
         rt.add_io_driver("probe", Box::new(Probe { ctl: ctl.clone(), stamp: stamp.clone() }));
         let clock = StepClock { inner: ManualClock::new(), ctl: ctl.clone() };
         runners.push(ResourceRunner::new(rt, clock, Duration::from_nanos(rc.interval)));
@@ -1315,6 +1411,7 @@ pub fn run_api(n: u64, rng: &mut Rng, _args: &Args, stamp: Arc<AtomicU64>, out: 
     if faulted > 0 && runners.len() >= 2 {
         out.line("tag nontrivial");
     }
+    out.add("debugger_breakpoint_hits", dbg_clients.hits.load(Ordering::SeqCst));
     out.line("tag api");
     out.line("end");
     Ok(())
@@ -1512,6 +1609,10 @@ pub fn run_stress(n: u64, rng: &mut Rng, args: &Args, stamp: Arc<AtomicU64>, out
     if faults > 0 {
         out.count("stress_cases_with_fault");
     }
+    out.add("debugger_breakpoint_hits", w.dbg_clients.hits.load(Ordering::SeqCst));
+    if cfg.res.iter().any(|r| r.dbg >= 2) {
+        out.line("tag stress-debugger-armed");
+    }
     out.line("tag stress");
     out.line("tag nontrivial");
     out.line("end");
@@ -1531,7 +1632,7 @@ pub fn run_stress(n: u64, rng: &mut Rng, args: &Args, stamp: Arc<AtomicU64>, out
 pub fn run_poison(n: u64, _rng: &mut Rng, args: &Args, stamp: Arc<AtomicU64>, out: &mut Out) -> Result<(), String> {
     let cfg = CaseCfg {
         res: (0..2)
-            .map(|i| ResCfg { inc: 1 + i as i64, interval: 10 * MS, scale: 1, gated: false, clk: i, restart: false })
+            .map(|i| ResCfg { inc: 1 + i as i64, interval: 10 * MS, scale: 1, gated: false, clk: i, restart: false, dbg: 0 })
             .collect(),
         c0: 0,
         p0: 0,
